@@ -180,8 +180,11 @@ structure Top where
   /-- the process has died inside the SIGWINCH machinery (the text of the CRASH line) -/
   fail : Option String := none
 
-/-- Operations that never reach the terminal driver. -/
+/-- Operations that never reach the terminal driver (window operations other than the flush only queue damage and
+    requests on the root window). -/
 def Op.leavesScreen : Op → Bool
+  | .act .flush => false
+  | .act _ | .win .. | .geom .. | .expose _ | .bind .. | .unbind .. | .setpen .. => true
   | .mdisp .. | .pen | .pref _ | .punref _ | .pset .. | .pdesc .. | .pcopy .. | .pcopyattr .. | .pbind .. | .punbind ..
   | .tref | .tunref | .str _ | .sref _ | .sunref _ | .sget _ | .rb .. | .bref _ | .bunref _ | .btext .. | .berase ..
   | .bskip .. | .bchar .. | .bhline .. | .bclear _ | .breset _ | .bsave _ | .bsavepen _ | .brestore _ | .bsetpen ..
@@ -537,7 +540,8 @@ def xstepCore (tc : TCfg) (top : Top) : XOp → Out (Top × String) :=
         | _ => false
       if crash then .ub .mem "root window uses the toplevel instance it has outlived" else
       let (st, r) ← step cfg top.st op
-      let screen := if top.printed && !op.leavesScreen then none else top.screen
+      -- an operation the harness skips reaches nothing
+      let screen := if top.printed && !op.leavesScreen && r ≠ "skip" then none else top.screen
       pure (({ top with st := st, screen := screen }).sync, r)
   | .mprint line col bytes =>
     if !top.mock || !heldT top.st then pure (top, "skip")
